@@ -77,6 +77,11 @@ for t in SECRET_TYPES:
     add("C10", "c10_reject_eq_%s" % t, "reject", "fn main() { let a = %s; let b = %s; let _ = a == b; }" % (mk, mk), code="E0369", needle=t)
     add("C10", "c10_reject_deref_%s" % t, "reject", "fn main() { let a = %s; let _s: &str = &*a; }" % mk, code="E0614", needle=t)
     add("C10", "c10_reject_into_string_%s" % t, "reject", "fn main() { let a = %s; let _s: String = a.into(); }" % mk, code="E0277", needle=t)
+for t in SECRET_TYPES:
+    mk = "%s::new(\"x\".to_string())" % t
+    add("C10", "c10_reject_eq_str_%s" % t, "reject", "fn main() { let a = %s; let _ = a == \"x\"; }" % mk, code="E0369", needle=t)
+    add("C10", "c10_reject_eq_string_%s" % t, "reject", "fn main() { let a = %s; let _ = a == String::from(\"x\"); }" % mk, code="E0369", needle=t)
+    add("C10", "c10_reject_str_eq_%s" % t, "reject", "fn main() { let a = %s; let _ = *\"x\" == a; }" % mk, code="E0277", needle=t)
 add("C10", "c10_reject_hash_off", "reject", "fn main() { let mut h = std::collections::HashSet::new(); h.insert(ClientSecret::new(\"x\".to_string())); }", code="E0277", needle="ClientSecret")
 add("C10", "c10_reject_clone_verifier", "reject", "fn main() { let a = PkceCodeVerifier::new(\"x\".to_string()); let _b = a.clone(); }", code="E0599", needle="clone")
 add("C10", "c10_accept_clone_others", "accept",
@@ -112,6 +117,10 @@ SEND_SETUP = ("let c = full(); let http = reqwest::Client::new(); let rt = Refre
               "let at = AccessToken::new(\"t\".to_string()); let d = details(); ")
 for name, call in SEND_CALLS.items():
     add("C17", "c17_send_%s" % name, "accept", SEND_PRELUDE + "fn main() { %s assert_send(%s); }" % (SEND_SETUP, call))
+add("C17", "c17_send_device_token_sleep_closure_not_sync", "accept",
+    SEND_PRELUDE + "fn main() { %s let counter = std::cell::Cell::new(0u32); "
+    "let sleep = move |_d: std::time::Duration| { counter.set(counter.get() + 1); async {} }; "
+    "assert_send(c.exchange_device_access_token(&d).request_async(&http, sleep, None)); }" % SEND_SETUP)
 add("C17", "c17_not_send_with_rc_client", "reject",
     SEND_PRELUDE + "fn main() { let c = full(); let rc = std::rc::Rc::new(1u8); "
     "let http = move |_r: HttpRequest| { let rc = rc.clone(); async move { let _keep = rc; Err::<HttpResponse, std::io::Error>(std::io::Error::new(std::io::ErrorKind::Other, \"x\")) } }; "
